@@ -79,6 +79,7 @@ type c17Scenario struct {
 	Stick   int         `json:"stick,omitempty"`
 	Tasks   [][]c17Spec `json:"tasks"` // statement: one list per task; h2: one list per client connection
 	Shared  bool        `json:"shared_handler,omitempty"`
+	Adopt   bool        `json:"handler_goroutines_are_tasks,omitempty"` // h2 only
 	Exchngs int         `json:"exchanges"`
 }
 
@@ -115,8 +116,8 @@ var c17Regexps = []string{
 var c17Types = []string{"text/plain", "application/octet-stream", "text/html; charset=utf-8", "application/json", "application/json; charset=utf-8",
 	"image/png", "application/vnd.api+json", "text/css;charset=utf-8", "application/xml", "video/mp4", "application/x-json-stream"}
 
-var c17Accepts = []string{"", "", "*/*", "text/html,application/json;q=0.9", "text/event-stream", "text/html, text/event-stream;q=0.9"}
-var c17Statuses = []int{200, 200, 200, 201, 404, 500, 503, 206, 204, 304, 301, 403}
+var c17Accepts = []string{"", "", "*/*", "text/html,application/json;q=0.9", "", "text/event-stream", "application/json", "text/html, text/event-stream;q=0.9"}
+var c17Statuses = []int{200, 200, 200, 201, 404, 500, 200, 503, 206, 204, 200, 304, 301, 403}
 var c17ExtraNames = []string{"X-Up-A", "Set-Cookie", "Set-Cookie", "Cache-Control", "Vary", "Content-Language", "Last-Modified", "X-Up-B", "Content-Disposition"}
 var c17ExtraVals = []string{"v", "a=b; Path=/", "max-age=60, public", "Origin", "en", "Mon, 01 Jan 2001 00:00:00 GMT", "attachment; filename=\"x.json\"", "a, b"}
 
@@ -191,10 +192,18 @@ func c17WriteSizes(g *simcore.Tape, n int) []int {
 	return out
 }
 
-func c17GenSpec(g *simcore.Tape, id string, h2 bool, maxBody int) c17Spec {
+func c17GenSpec(g *simcore.Tape, id string, h2 bool, maxBody int, re *regexp.Regexp) c17Spec {
 	sp := c17Spec{ID: id}
-	sp.Method = simcore.Pick(g, []string{"GET", "GET", "POST", "HEAD"})
-	ae := simcore.Pick(g, c17AEs)
+	sp.Method = simcore.Pick(g, []string{"GET", "GET", "POST", "GET", "HEAD", "GET"})
+	// the trigger of the property is a compressed response: bias towards requests and responses that qualify
+	cls := simcore.Pick(g, []string{"yes", "yes", "no", "yes", "yes", "no", "ambiguous", "yes", "no", "yes"})
+	var aes []c17AE
+	for _, a := range c17AEs {
+		if a.Class == cls {
+			aes = append(aes, a)
+		}
+	}
+	ae := simcore.Pick(g, aes)
 	if ae.Present {
 		v := ae.Value
 		sp.AE = &v
@@ -215,11 +224,22 @@ func c17GenSpec(g *simcore.Tape, id string, h2 bool, maxBody int) c17Spec {
 	}
 	sp.Status = simcore.Pick(g, c17Statuses)
 	sp.Explicit = sp.Status != 200 || h2 || g.Bool()
-	if i := g.Intn(len(c17Types) + 2); i < len(c17Types) {
-		t := c17Types[i]
+	switch k := g.Intn(10); {
+	case k == 9: // absent
+	default:
+		var pool []string
+		for _, t := range c17Types {
+			if re.MatchString(t) == (k < 6) {
+				pool = append(pool, t)
+			}
+		}
+		if len(pool) == 0 {
+			pool = c17Types
+		}
+		t := simcore.Pick(g, pool)
 		sp.CT = &t
 	}
-	sp.CE = simcore.Pick(g, []string{"", "", "", "gzip", "br", "deflate"})
+	sp.CE = simcore.Pick(g, []string{"", "", "", "gzip", "", "", "br", "", "", "deflate", "", ""})
 	if h2 && sp.CE == "gzip" && (sp.AE == nil || *sp.AE == "") {
 		// net/http's Transport would ask the upstream for gzip on its own and undo it: outside the property
 		sp.CE = "br"
@@ -256,7 +276,7 @@ func c17GenSpec(g *simcore.Tape, id string, h2 bool, maxBody int) c17Spec {
 	return sp
 }
 
-func c17Gen(g *simcore.Tape, thorough bool, force string) *c17Scenario {
+func c17Gen(g *simcore.Tape, thorough bool, force string) (*c17Scenario, *regexp.Regexp) {
 	sc := &c17Scenario{Mode: "statement"}
 	if g.Intn(3) == 2 {
 		sc.Mode = "h2"
@@ -265,6 +285,7 @@ func c17Gen(g *simcore.Tape, thorough bool, force string) *c17Scenario {
 		sc.Mode = force
 	}
 	sc.Regexp = simcore.Pick(g, c17Regexps)
+	re := regexp.MustCompile(sc.Regexp)
 	h2 := sc.Mode == "h2"
 	var ntasks, maxBody int
 	if h2 {
@@ -273,6 +294,7 @@ func c17Gen(g *simcore.Tape, thorough bool, force string) *c17Scenario {
 		if thorough {
 			maxBody = 200000
 		}
+		sc.Adopt = g.Intn(3) != 2
 	} else {
 		ntasks = g.Range(2, 4)
 		if thorough {
@@ -284,16 +306,24 @@ func c17Gen(g *simcore.Tape, thorough bool, force string) *c17Scenario {
 	}
 	id := 0
 	for t := 0; t < ntasks; t++ {
-		n := g.Range(1, 3)
+		n := g.Range(1, 4)
 		var list []c17Spec
 		for k := 0; k < n; k++ {
-			list = append(list, c17GenSpec(g, fmt.Sprintf("x%d", id), h2, maxBody))
+			sp := c17GenSpec(g, fmt.Sprintf("x%d", id), h2, maxBody, re)
+			if sc.Adopt {
+				// A chunked upstream reply makes httputil.ReverseProxy copy the body under its own
+				// flush mutex, which a timer goroutine also takes: a task parked inside
+				// GzipResponseWriter.Write would then hold a real lock. With tasks, upstreams
+				// therefore always declare a Content-Length (chunked replies run untasked).
+				sp.HasCL = true
+			}
+			list = append(list, sp)
 			id++
 		}
 		sc.Tasks = append(sc.Tasks, list)
 	}
 	sc.Exchngs = id
-	return sc
+	return sc, re
 }
 
 // sentHeader is the header set the inner handler / upstream produces for sp.
@@ -653,6 +683,7 @@ func runC17Statement(r *simcore.Run, sc *c17Scenario, re *regexp.Regexp) {
 		if !overlap && d.Sim.InFunc("gzip", "") >= 2 {
 			overlap = true
 		}
+		r.State(strings.Join(d.Sim.TaskStates(), "|"))
 	}
 	if !d.Run(400000, func() bool { return d.Sim.Pending() == 0 }) {
 		r.Trouble("tasks did not finish: %v", d.Sim.TaskStates())
@@ -698,10 +729,21 @@ func runC17H2(r *simcore.Run, sc *c17Scenario, re *regexp.Regexp) {
 	cfg.Proxy.GZIPContentTypes = re
 	e := h2NewEnv(r, cfg, "route add svc / http://up0.sim:80/\n")
 	defer e.finish()
-	e.d.Sim.Activate("gzip")
 	var mu sync.Mutex
 	perConn := map[string]int{}
+	if sc.Adopt {
+		e.d.Sim.Activate("gzip")
+		r.Probe("h2_tasked")
+		e.d.Invariant = func() {
+			if e.d.Sim.InFunc("gzip", "") >= 1 {
+				r.State(strings.Join(e.d.Sim.TaskStates(), "|"))
+			}
+		}
+	}
 	e.wrap = func(h http.Handler) http.Handler {
+		if !sc.Adopt {
+			return h
+		}
 		return http.HandlerFunc(func(w http.ResponseWriter, req *http.Request) {
 			mu.Lock()
 			perConn[req.RemoteAddr]++
@@ -778,13 +820,8 @@ func runC17H2(r *simcore.Run, sc *c17Scenario, re *regexp.Regexp) {
 }
 
 func runC17(r *simcore.Run) {
-	sc := c17Gen(r.Gen, r.Thorough(), r.Param("mode"))
+	sc, re := c17Gen(r.Gen, r.Thorough(), r.Param("mode"))
 	r.SetSample(sc)
-	re, err := regexp.Compile(sc.Regexp)
-	if err != nil {
-		r.Trouble("scenario expression does not compile: %v", err)
-		return
-	}
 	if sc.Mode == "h2" {
 		runC17H2(r, sc, re)
 	} else {
